@@ -85,9 +85,13 @@ def main():
             },
             "level_note": "Outside the claim: " + outside + ". Trusted: Kani's MIR->goto translation, CBMC/CaDiCaL, the "
                           "tracing/crossbeam/smallvec stubs, the address-based TypeId::{of,eq} stubs" + (", the envstub/bevy environment model (validated by conformance run + "
-                          "public-API replay)" if "k2" in engines else "") + ".",
+                          "public-API replay)" if "k2" in engines else "") + "; per-query stubs (e.g. the runner queries replace "
+                          "the collector / removal poll by no-ops or marks and record nested runner calls through a generated function "
+                          "twin) and the checked function-pointer restrictions are listed with every query in the evidence file.",
             "technique": "SAT-based bounded model checking (Kani 0.68 -> CBMC 6.11 + CaDiCaL) of the real Rust functions, "
-                         "symbolic pre-state + one inductive step, counterexamples replayed natively",
+                         "symbolic pre-state + one inductive step per query, encoding regenerated from /repo's source on every run, "
+                         "counterexamples replayed natively (concrete playback of the solver's assignment and public-API witness "
+                         "scenarios on real Bevy) before a VIOLATION is printed",
         })
     manifest = {
         "version": 1,
